@@ -755,3 +755,8 @@ mod tests {
         assert!(multiaddr_matches_peer_id(&addr_without_peer_id, &peer_id));
     }
 }
+
+#[cfg(kani)]
+pub(crate) mod verif {
+    include!(concat!(env!("LIBP2P_VERIF"), "/hooks/identify_behaviour.rs"));
+}
